@@ -342,7 +342,10 @@ class ArcBasedRoutingProblem(RoutingProblem):
 #            brhs.append(1)
 #            row_index += 1
 
-        self.constraints_matrix = sparse.coo_array((aval, (arow,acol)))
+        # give the shape explicitly: trailing constraints or variables may have no entry
+        self.constraints_matrix = sparse.coo_array((aval, (arow,acol)),
+            shape=(len(brhs), self.get_num_variables())
+        )
         self.constraints_rhs = np.array(brhs)
         self.constraints_built = True
         return
